@@ -179,7 +179,13 @@ func VerifC05File() {
 	path := verifTempPath("sig-exists.index")
 	w, err := NewWriter(path)
 	verifAssert(err == nil, "C05.file: NewWriter failed")
-	shape := verifC05Shapes[verifParam("shape", 0)]
+	var avail []int
+	for i := range verifC05Shapes {
+		if verifParam("shapes", 1)&(1<<i) != 0 {
+			avail = append(avail, i)
+		}
+	}
+	shape := verifC05Shapes[avail[verifChoice("shape", len(avail))]]
 	sigs := make([][64]byte, len(shape))
 	for i, pi := range shape {
 		var s [64]byte
@@ -216,10 +222,12 @@ func VerifC05File() {
 		}
 	}
 	var q [64]byte
-	{
+	if verifParam("query", 0) == 1 {
 		p := verifC05Prefixes[qset[verifChoice("q.prefix", len(qset))]]
 		q[0], q[1] = p[0], p[1]
 		copy(q[2:8], verifBytes("q", 6))
+	} else if len(sigs) > 0 {
+		q = sigs[len(sigs)/2] // no symbolic query: nothing forks after the puts
 	}
 	wHas := w.Has(q)
 
